@@ -1,0 +1,78 @@
+//go:build verif
+
+package secs1
+
+import (
+	"time"
+
+	"github.com/arloliu/go-secs/v2/hsms"
+	"github.com/arloliu/go-secs/v2/internal/wire"
+)
+
+// Compiled only with the `verif` build tag: constructors/aliases over existing unexported code so an
+// external harness can feed generated block sequences to the REAL inbound assembler with an injected
+// clock, and call the real block parser / message splitter. No behaviour is added.
+
+// VerifAssembler wraps a real per-generation assembler.
+type VerifAssembler struct {
+	a         *assembler
+	Now       time.Time
+	Delivered [][]byte // synthesized [10-byte header || body] frames handed to the core, in order
+	Violation []error  // violations reported through notify
+}
+
+// NewVerifAssembler builds a real assembler for (device id, role) with the given T4.
+func NewVerifAssembler(deviceID uint16, isEquip bool, t4 time.Duration) *VerifAssembler {
+	v := &VerifAssembler{Now: time.Unix(1000, 0)}
+	cfg := Config{deviceID: deviceID, isEquip: isEquip}
+	v.a = newAssembler(cfg, func(frame []byte) error {
+		v.Delivered = append(v.Delivered, append([]byte(nil), frame...))
+		return nil
+	}, func() hsms.TimerConfig { return hsms.TimerConfig{T4: t4} }, &ConnectionMetrics{}, func(err error, _ [10]byte) {
+		v.Violation = append(v.Violation, err)
+	})
+	v.a.now = func() time.Time { return v.Now }
+
+	return v
+}
+
+// AcceptRaw parses raw (length byte first) with the real parseBlock and, if well-formed, feeds it to
+// the real assembler. It returns the parse error, if any.
+func (v *VerifAssembler) AcceptRaw(raw []byte) error {
+	if len(raw) < 1 {
+		return ErrInvalidLength
+	}
+	blk, err := parseBlock(raw[0], append([]byte(nil), raw[1:]...))
+	if err != nil {
+		return err
+	}
+
+	return v.a.accept(blk)
+}
+
+// VerifParseBlock is parseBlock; it returns the header and body of a well-formed block.
+func VerifParseBlock(raw []byte) (header [10]byte, body []byte, err error) {
+	if len(raw) < 1 {
+		return header, nil, ErrInvalidLength
+	}
+	blk, err := parseBlock(raw[0], raw[1:])
+	if err != nil {
+		return header, nil, err
+	}
+
+	return blk.header, blk.body.AppendTo(nil), nil
+}
+
+// VerifSplit runs the real splitBody + appendTo and returns the wire form of every block.
+func VerifSplit(deviceID uint16, rBit bool, stream, function uint8, wait bool, sys [4]byte, body []byte) ([][]byte, error) {
+	seq, err := splitBody(wire.AdoptBody(body), messageHeader{deviceID: deviceID, rBit: rBit, stream: stream, function: function, waitBit: wait, systemBytes: sys})
+	if err != nil {
+		return nil, err
+	}
+	var out [][]byte
+	for b := range seq {
+		out = append(out, b.appendTo(nil))
+	}
+
+	return out, nil
+}
